@@ -430,6 +430,8 @@ def run(ctx, prog):
     for r_ in ("R-GUARD", "R-CONVERT", "R-SIBLING", "R-COPYARR"):
         ctx.doc(r_, [l.strip() for l in __doc__.split("\n") if l.startswith(r_)][0])
     ctx.doc("R-TAG", "union-tag discipline (see rules/tags.py)")
+    from rules import accum
+    accum.run(ctx, prog)
 
 
 def region_has_float(pt, ks, rout, tin):
